@@ -540,6 +540,25 @@ def gen_extreme(rng, tier):
             c = case_of("fbig", rng.choice(["plain", "static"]), "-_0x%s%s%s%d" % (rng.choice(["f", "10", "ff00"]), rng.choice("pP"), sg, e))
             if c:
                 yield c
+    # round 6 (fix 5997fe0, float/src/parse.rs): the parser subtracts the number of fraction digits from the scale in i128 and
+    # adds the normalisation shift BEFORE the isize test — class from the branch condition `isize::try_from(scale - fract_digits
+    # + shift)`: scale - fract_digits < isize::MIN <= scale - fract_digits + trailing zeros (a value now, an overflow before), the
+    # two neighbours on either side, and the mirror class at isize::MAX (integral trailing zeros push the exponent out)
+    for k in range(0, 6):
+        for mant in ("1.50", "1.000", "10.00", "100.0", "1.5", "0.10", "0.0100", "1.10000", "1100.00"):
+            for kind, marks in (("dbig", "eE@"), ("fbig", "bB@")):
+                m = mant if kind == "dbig" else mant.replace("5", "1")
+                for txt in ("%s%s-%d" % (m, rng.choice(marks), 2 ** 63 - k), "%s%s%d" % (m, rng.choice(marks), 2 ** 63 - 1 - k),
+                            "-%s%s-%d" % (m, rng.choice(marks), 2 ** 63 - k)):
+                    c = case_of(kind, rng.choice(["plain", "static"]), txt)
+                    if c:
+                        yield c
+        for hm in ("0x1.80", "0x1.8", "0x10.00", "0x3.000", "-_0xc.40", "0x100"):
+            for txt in ("%s%s-%d" % (hm, rng.choice("pP"), 2 ** 63 - k), "%s%s%d" % (hm, rng.choice("pP"), 2 ** 63 - 1 - k),
+                        "%s%s-%d" % (hm, rng.choice("pP"), 2 ** 63 - 4 - k), "%s%s-%d" % (hm, rng.choice("pP"), 2 ** 63 - 10 - k)):
+                c = case_of("fbig", rng.choice(["plain", "static"]), txt)
+                if c:
+                    yield c
     # (E2) every alphanumeric character in the first / a middle / the last position of a value token, with a radix
     # just above and just below the character's digit value and the largest radix: accepted iff digit < radix
     for ch in ALNUM:
